@@ -498,6 +498,26 @@ impl FromMeta<'_> for u32 {
     }
 }
 
+// Narrow integer fields.  Like `u32` (which accepts negative numbers as their two's complement), these accept both
+// the signed and unsigned readings of the field; anything else would be silently truncated, so it is an error.
+impl FromMeta<'_> for u16 {
+    fn from_meta(meta: &Sp<Meta>) -> Result<Self, FromMetaError<'_>> {
+        match i32::from_meta(meta)? {
+            x @ -0x8000..=0xFFFF => Ok(x as u16),
+            _ => Err(FromMetaError::expected("an integer that fits in 16 bits", meta)),
+        }
+    }
+}
+
+impl FromMeta<'_> for u8 {
+    fn from_meta(meta: &Sp<Meta>) -> Result<Self, FromMetaError<'_>> {
+        match i32::from_meta(meta)? {
+            x @ -0x80..=0xFF => Ok(x as u8),
+            _ => Err(FromMetaError::expected("an integer that fits in 8 bits", meta)),
+        }
+    }
+}
+
 impl FromMeta<'_> for f32 {
     fn from_meta(meta: &Sp<Meta>) -> Result<Self, FromMetaError<'_>> {
         match ScalarValue::from_meta(meta)? {
